@@ -313,6 +313,16 @@ func (s *Scheme) runDKG(ctx context.Context, membership *membership, dkgProtocol
 			allowedList: universalIDsToUintMap(universalIds),
 		}
 
+		s.Logger.Debugf("Running keygen with parties %v", members)
+
+		// The protocol instance must be initialized before any message can be dispatched to it
+		if err := s.initializeDKG(dkgProtocolInstance, t, UIntsToUniversalIDs(members), parties, membership); err != nil {
+			s.Logger.Errorf("Failed initializing DKG: %v", err)
+			resultChan <- mpcResult{err: err}
+			return
+		}
+		verifPoint("dkg.afterInit")
+
 		s.lock.Lock()
 		_, rbcExisted := s.rbcInProgress[string(dkgTopicHash)]
 		s.rbcInProgress[string(dkgTopicHash)] = rbc.Receive
@@ -322,14 +332,6 @@ func (s *Scheme) runDKG(ctx context.Context, membership *membership, dkgProtocol
 			panic("Programming error: we shouldn't have gotten to a situation with two concurrent signing with the same topic")
 		}
 		verifPoint("dkg.afterRBCRegister")
-
-		s.Logger.Debugf("Running keygen with parties %v", members)
-
-		if err := s.initializeDKG(dkgProtocolInstance, t, UIntsToUniversalIDs(members), parties, membership); err != nil {
-			s.Logger.Errorf("Failed initializing DKG: %v", err)
-			resultChan <- mpcResult{err: err}
-			return
-		}
 
 		// We use a synchronizer to synchronize on the hash of the parties, to ensure that all parties that participate
 		// in DKG are in agreement on the membership of the DKG.
